@@ -20,6 +20,56 @@ type W struct {
 	OptBits   int // OPTIONAL fields present
 	OpenDepth int // deepest nesting of open types
 	depth     int
+	// fault injection (C14): the Fault.At-th structural field written is altered
+	Fault *Fault
+	Opps  int // structural fields written so far (extension bits, lengths, counts, indices, bitmaps, numbers)
+}
+
+// Fault makes the encoder produce a deliberately NON-conformant encoding: the At-th
+// structural field (extension bit, length determinant, count, CHOICE index, optional
+// bitmap bit, constrained number) is altered according to Variant; the content that
+// follows is written as for the valid value.
+type Fault struct {
+	At      int
+	Variant int
+	Hit     string // what was altered (filled in by the encoder)
+}
+
+// put writes an n-bit structural field, altered if the fault is due here.
+func (w *W) put(kind string, v uint64, n int) {
+	w.Opps++
+	if w.Fault != nil && w.Fault.At == w.Opps-1 && n > 0 {
+		mask := uint64(1)<<uint(n) - 1
+		if n >= 64 {
+			mask = ^uint64(0)
+		}
+		orig := v
+		switch w.Fault.Variant % 5 {
+		case 0:
+			v ^= 1
+		case 1:
+			v = mask
+		case 2:
+			v = 0
+		case 3:
+			v = (v + 1) & mask
+		case 4:
+			v ^= 1 << uint(n-1)
+		}
+		if v == orig {
+			v = (orig ^ 1) & mask
+		}
+		w.Fault.Hit = fmt.Sprintf("%s/%dbits:%d->%d", kind, n, orig, v)
+		w.Bits(v, n)
+		if kind == "ext-int" && v == 1 {
+			// an INTEGER claimed to be outside its root: follow with a hostile length octet
+			w.Align()
+			w.Bits([]uint64{0, 9, 0x80, 0xFF, 1}[w.Fault.Variant/5%5], 8)
+			w.Fault.Hit += "+len"
+		}
+		return
+	}
+	w.Bits(v, n)
 }
 
 func (w *W) Bit(b uint64) {
@@ -122,13 +172,13 @@ func (w *W) Constrained(n, lb, ub int64) error {
 		return nil
 	case r <= 255:
 		w.Unaligned++
-		w.Bits(v, bitsFor(r-1))
+		w.put("num", v, bitsFor(r-1))
 	case r == 256:
 		w.Align()
-		w.Bits(v, 8)
+		w.put("num", v, 8)
 	case r <= 65536:
 		w.Align()
-		w.Bits(v, 16)
+		w.put("num", v, 16)
 	default:
 		w.BigRange++
 		maxOct := octetsFor(r - 1)
@@ -148,7 +198,7 @@ func (w *W) constrainedBitField(n, lb, ub int64) error {
 		return nil
 	}
 	w.Unaligned++
-	w.Bits(uint64(n-lb), bitsFor(r-1))
+	w.put("idx", uint64(n-lb), bitsFor(r-1))
 	return nil
 }
 
@@ -160,10 +210,10 @@ func (w *W) GeneralLength(n int) (now int, more bool) {
 	}
 	switch {
 	case n <= 127:
-		w.Bits(uint64(n), 8)
+		w.put("len", uint64(n), 8)
 		return n, false
 	case n < 16384:
-		w.Bits(0x8000|uint64(n), 16)
+		w.put("len", 0x8000|uint64(n), 16)
 		return n, false
 	default:
 		m := n / 16384
@@ -181,9 +231,9 @@ func (w *W) Sized(n int, lb, ub int64, ext bool, hasBounds bool, emit func(from,
 	constrained := hasBounds && ub < 65536
 	if ext {
 		if hasBounds && int64(n) >= lb && int64(n) <= ub {
-			w.Bit(0)
+			w.put("ext-size", 0, 1)
 		} else {
-			w.Bit(1)
+			w.put("ext-size", 1, 1)
 			constrained = false
 		}
 	} else if hasBounds && (int64(n) < lb || int64(n) > ub) {
@@ -217,9 +267,9 @@ func (w *W) Integer(n int64, p P) error {
 		inRoot := n >= lb && n <= ub
 		if p.valExt {
 			if inRoot {
-				w.Bit(0)
+				w.put("ext-int", 0, 1)
 			} else {
-				w.Bit(1)
+				w.put("ext-int", 1, 1)
 				return w.unconstrainedInt(n)
 			}
 		}
@@ -276,7 +326,7 @@ func (w *W) BitString(b []byte, nbits int, p P) error {
 			return fmt.Errorf("fixed size mismatch")
 		}
 		if p.sizeExt {
-			w.Bit(0)
+			w.put("ext-size", 0, 1)
 		}
 		if ub > 16 {
 			w.Align()
@@ -305,7 +355,7 @@ func (w *W) OctetString(b []byte, p P) error {
 			return fmt.Errorf("fixed size mismatch")
 		}
 		if p.sizeExt {
-			w.Bit(0)
+			w.put("ext-size", 0, 1)
 		}
 		if ub > 2 {
 			w.Align()
@@ -377,7 +427,7 @@ func (w *W) enc(v reflect.Value, p P) error {
 			return fmt.Errorf("enum value outside root")
 		}
 		if p.valExt {
-			w.Bit(0)
+			w.put("ext-enum", 0, 1)
 		}
 		return w.Constrained(n, *p.vLB, *p.vUB)
 	}
@@ -426,7 +476,7 @@ func (w *W) enc(v reflect.Value, p P) error {
 				if p.refVal == nil || ap.refVal == nil || *p.refVal != *ap.refVal {
 					return fmt.Errorf("open type does not match its identifier")
 				}
-				inner := &W{depth: w.depth + 1}
+				inner := &W{depth: w.depth + 1, Fault: w.Fault, Opps: w.Opps}
 				if inner.depth > w.OpenDepth {
 					w.OpenDepth = inner.depth
 				}
@@ -437,6 +487,7 @@ func (w *W) enc(v reflect.Value, p P) error {
 				if len(inner.buf) == 0 {
 					inner.buf = []byte{0}
 				}
+				w.Opps = inner.Opps
 				w.Unaligned += inner.Unaligned
 				w.Aligns += inner.Aligns
 				w.BigRange += inner.BigRange
@@ -468,7 +519,7 @@ func (w *W) enc(v reflect.Value, p P) error {
 				return &SchemaError{fmt.Sprintf("CHOICE %s valueUB %d but %d alternatives", t.Name(), *p.vUB, t.NumField()-1)}
 			}
 			if p.valExt {
-				w.Bit(0)
+				w.put("ext-choice", 0, 1)
 			}
 			if err := w.constrainedBitField(int64(present-1), 0, *p.vUB); err != nil {
 				return err
@@ -477,16 +528,16 @@ func (w *W) enc(v reflect.Value, p P) error {
 		}
 		// SEQUENCE
 		if p.valExt {
-			w.Bit(0)
+			w.put("ext-seq", 0, 1)
 		}
 		fps := make([]P, t.NumField())
 		for i := 0; i < t.NumField(); i++ {
 			fps[i] = parseTag(t.Field(i).Tag.Get("aper"))
 			if fps[i].opt {
 				if v.Field(i).IsNil() {
-					w.Bit(0)
+					w.put("opt", 0, 1)
 				} else {
-					w.Bit(1)
+					w.put("opt", 1, 1)
 					w.OptBits++
 				}
 			}
@@ -514,4 +565,17 @@ func (w *W) enc(v reflect.Value, p P) error {
 		return nil
 	}
 	return fmt.Errorf("unsupported %s", v.Type())
+}
+
+// EncodeFault encodes v like Encode but alters the at-th structural field (see Fault).
+// It returns the hostile bytes, what was altered, and the number of structural fields.
+func EncodeFault(v interface{}, tag string, at, variant int) ([]byte, string, int, error) {
+	w := &W{Fault: &Fault{At: at, Variant: variant}}
+	if err := w.enc(reflect.ValueOf(v), parseTag(tag)); err != nil {
+		return nil, "", w.Opps, err
+	}
+	if len(w.buf) == 0 {
+		w.buf = []byte{0}
+	}
+	return w.buf, w.Fault.Hit, w.Opps, nil
 }
